@@ -1458,8 +1458,15 @@ class Interp:
         if lc is None:
             # no contract: only concrete-bounded loops may be unrolled
             n = 0
+            K = getattr(self.ctx.run, "bounded_unroll", 0)
             while True:
                 t = ops.truth(self.eval(node.test, env))
+                if not isinstance(t, bool) and K:
+                    if n >= K:
+                        if self.ctx.branch(t, "unroll-bound@%d" % node.lineno):
+                            raise PathEnd()
+                        break
+                    t = self.ctx.branch(t, "unroll@%d#%d" % (node.lineno, n))
                 if not isinstance(t, bool):
                     self.unsupported(node, "while loop without a loop contract")
                 if not t:
@@ -1545,6 +1552,28 @@ class Interp:
     def s_For(self, node, env):
         lc, lname = self.pack.loop_contract(self, node, env)
         it = self.eval(node.iter, env)
+        K = getattr(self.ctx.run, "bounded_unroll", 0)
+        if lc is None and K and (isinstance(it, SList) or (isinstance(it, Opaque) and (it.tag in ("range", "enumerate") or "seq" in it.attrs))):
+            try:
+                n, getter = self.pack.for_sequence(self, it, node)
+            except Unsupported:
+                n = None
+            if n is not None:
+                for k in range(K):
+                    if not self.ctx.branch(z3.IntVal(k) < n, "unroll@%d#%d" % (node.lineno, k)):
+                        self.exec_block(node.orelse, env)
+                        return
+                    self.assign_target(node.target, getter(z3.IntVal(k)), env)
+                    try:
+                        self.exec_block(node.body, env)
+                    except Brk:
+                        return
+                    except Cont:
+                        continue
+                if self.ctx.branch(z3.IntVal(K) < n, "unroll-bound@%d" % node.lineno):
+                    raise PathEnd()  # beyond the stated bound
+                self.exec_block(node.orelse, env)
+                return
         if lc is None:
             items = self.pack.for_items(self, it, node)
             for x in items:
